@@ -47,6 +47,19 @@ def _hist_nontrivial(sx, v, meta):
     return v[0] == 'ok' and len(v[2]) > 0 and int(v[2][0]) >= 2
 
 PROPS = {
+    'C19': dict(
+        parts=[dict(harness='C19', judge='C19', cases=dict(quick=900, thorough=9000), judge_module='Judge.J19', judge_fn='judge_C19',
+                    extra_args=['-cli', '{BUILD}/gophersat', '-clidir', '{WORK}'])],
+        rule='the executable built from /repo is run on generated files: .cnf (mixed / 3-SAT / unit-rich / binary-rich / pigeonhole, '
+             'flags none, -count, -certified, -mus, -cp, -verbose), .opb (cardinality / PB problems with a min: line, flags none, '
+             '-count, -cp, -verbose), .wcnf (flags none, -verbose), .bf (fully parenthesised formulas), and unreadable inputs '
+             '(unknown suffix, missing file, malformed content of each kind); stdout is read by the Coq readers of Model/Cli.v and '
+             'judged against the oracles (model of the file, unsatisfiable, strictly decreasing o-lines ending in the optimum attained '
+             'by the v-line, exact count, certificate replayed by rup_check, MUS validity), exit status 0 / non-zero; non-trivial = '
+             'every judged run',
+        nontrivial=lambda sx, v, meta: v[0] == 'ok',
+        assumptions=['exit status and stdout are observed, not proved', 'OPB files with negative cost coefficients are left to C03 (finding D6)'],
+    ),
     'C17': dict(
         parts=[dict(harness='C17', judge='C17', cases=dict(quick=6000, thorough=60000), judge_module='Judge.J17', judge_fn='judge_C17',
                     prerender=dict(gen='C17gen', renderer='render17'))],
